@@ -39,6 +39,9 @@ from .state import ParseStateStack
 type RuleOutcome = RuleResult | ParseException
 type MemoCache = dict[MemoKey, RuleOutcome]
 
+# a constant is evaluated until its value stops changing
+MAX_CONSTANT_PASSES = 16
+
 
 class ParserEngine(ParserCore, CanParse):
     def parse(
@@ -313,10 +316,20 @@ class ParserEngine(ParserCore, CanParse):
 
         expression = Undefined
         result = literal
+        passes = 0
         while result != expression:
             expression = result
             if not isinstance(expression, str):
                 break
+
+            # note: values taken from the input that name each other
+            #   ('{b}' bound to a and '{a}' to b) never reach a fixed point
+            passes += 1
+            if passes > MAX_CONSTANT_PASSES:
+                raise FailedSemantics(
+                    f'Error evaluating constant {literal!r}:'
+                    f' no fixed point after {MAX_CONSTANT_PASSES} passes',
+                )
 
             expression = result = trim(expression)
             with suppress(ValueError, SyntaxError):
